@@ -1300,6 +1300,26 @@ func (l *Listener) packetInput(data []byte, addr net.Addr) {
 	l.sessions[addr.String()] = s
 	l.sessionLock.Unlock()
 	l.chAccepts <- s
+
+	// the listener may have been closed in the meantime: nobody is going to accept this session
+	select {
+	case <-l.die:
+		l.closeUnaccepted()
+	default:
+	}
+}
+
+// closeUnaccepted closes the sessions that are still waiting in the accept backlog.
+// Nobody owns them yet, so nobody else could ever close them.
+func (l *Listener) closeUnaccepted() {
+	for {
+		select {
+		case s := <-l.chAccepts:
+			s.Close()
+		default:
+			return
+		}
+	}
 }
 
 func (l *Listener) notifyReadError(err error) {
@@ -1419,6 +1439,9 @@ func (l *Listener) Close() error {
 	if !once {
 		return errors.WithStack(io.ErrClosedPipe)
 	}
+
+	// sessions that were never accepted would otherwise stay alive forever
+	l.closeUnaccepted()
 
 	if l.ownConn {
 		return l.conn.Close()
